@@ -68,6 +68,7 @@ class Actor(object):
         self.state = 'new'
         self.label = None
         self.kill = False
+        self.unwind = False
         self.exc = None
         self.t = threading.Thread(target=self._run, daemon=True)
 
@@ -86,6 +87,10 @@ class Actor(object):
             self.back.release()
 
     def park(self, label):
+        if self.kill and self.unwind:
+            # the instance is dying by EXCEPTION UNWINDING (SystemExit / GreenletExit at service stop): the clean-up
+            # code of the real thread (finally clauses) runs for real, nothing parks any more
+            return
         self.label = label
         self.state = 'parked'
         self.back.release()
@@ -103,10 +108,11 @@ class Actor(object):
         self.back.acquire()
         return self.state
 
-    def destroy(self):
+    def destroy(self, unwind=False):
         if self.state == 'done':
             return
         self.kill = True
+        self.unwind = unwind
         if self.state == 'new':
             self.t.start()
         self.resume()
@@ -489,20 +495,23 @@ class World(object):
         inst.poll[1].resume()
         self._poll_done(inst)
 
-    def _kill(self, inst):
+    def _kill(self, inst, unwind=False):
         for a in list(inst.tasks.values()):
-            a.destroy()
+            a.destroy(unwind)
         inst.tasks = {}
         if inst.poll and inst.poll[0] == 'running':
-            inst.poll[1].destroy()
+            inst.poll[1].destroy(unwind)
         inst.poll = None
         inst.poll_queue = []
 
-    def st_crash(self, i):
+    def st_crash(self, i, unwind=0):
+        """the instance dies: its parked threads never continue (kill -9), or - unwind=1 - they are unwound by a
+        BaseException raised where they are parked, so that the finally clauses of the real code run (a process
+        stopped by SystemExit / GreenletExit); for the model both are the same step: the work in flight stays as it is"""
         inst = self.insts[i]
         if not inst.alive:
             return
-        self._kill(inst)
+        self._kill(inst, bool(unwind))
         inst.alive = False
         inst.sched = None
 
